@@ -102,12 +102,56 @@ def subject_hash(pem):
     return "%08x" % int.from_bytes(hashlib.sha1(enc).digest()[:4], "little")
 
 
+class _Leaf:
+    """a server certificate made by hand (trustme turns every IP-looking name into an iPAddress entry): same interface as trustme's"""
+
+    def __init__(self, key_pem, cert_pem):
+        import trustme
+        self.private_key_and_cert_chain_pem = trustme.Blob(key_pem + cert_pem)
+        self.cert_chain_pems = [trustme.Blob(cert_pem)]
+
+    def configure_cert(self, ctx):
+        with self.private_key_and_cert_chain_pem.tempfile() as path:
+            ctx.load_cert_chain(path)
+
+
+def _issue_typed(ca, san):
+    """san entries "dns:<text>" become dNSName entries whatever the text looks like"""
+    import datetime
+    import ipaddress
+    from cryptography import x509
+    from cryptography.hazmat.primitives import hashes, serialization
+    from cryptography.hazmat.primitives.asymmetric import ec
+    from cryptography.x509.oid import NameOID
+    cakey = serialization.load_pem_private_key(ca.private_key_pem.bytes(), None)
+    cacert = x509.load_pem_x509_certificate(ca.cert_pem.bytes())
+    key = ec.generate_private_key(ec.SECP256R1())
+    names = []
+    for s in san:
+        if s.startswith("dns:"):
+            names.append(x509.DNSName(s[4:]))
+        else:
+            try:
+                names.append(x509.IPAddress(ipaddress.ip_address(s)))
+            except ValueError:
+                names.append(x509.DNSName(s))
+    now = datetime.datetime.now(datetime.timezone.utc)
+    cert = (x509.CertificateBuilder().subject_name(x509.Name([x509.NameAttribute(NameOID.ORGANIZATION_NAME, "c07 leaf")]))
+            .issuer_name(cacert.subject).public_key(key.public_key()).serial_number(x509.random_serial_number())
+            .not_valid_before(now - datetime.timedelta(days=1)).not_valid_after(now + datetime.timedelta(days=30))
+            .add_extension(x509.SubjectAlternativeName(names), critical=False)
+            .add_extension(x509.BasicConstraints(ca=False, path_length=None), critical=True)
+            .sign(cakey, hashes.SHA256()))
+    key_pem = key.private_bytes(serialization.Encoding.PEM, serialization.PrivateFormat.TraditionalOpenSSL, serialization.NoEncryption())
+    return _Leaf(key_pem, cert.public_bytes(serialization.Encoding.PEM))
+
+
 def server_cert(issuer, san):
     p = pki()
     key = (issuer, tuple(san))
     if key not in p["certs"]:
         ca = {"trusted": p["good"], "system": p["system"]}.get(issuer, p["bad"])
-        p["certs"][key] = ca.issue_cert(*san)
+        p["certs"][key] = _issue_typed(ca, san) if any(s.startswith("dns:") for s in san) else ca.issue_cert(*san)
     return p["certs"][key]
 
 
@@ -124,16 +168,20 @@ def san_matches(san, name):
     except ValueError:
         ip = None
     for s in san:
+        typed_dns = s.startswith("dns:")          # a dNSName entry, whatever its text looks like: it never names an IP address
+        if typed_dns:
+            s = s[4:]
         if ip is not None:
             try:
-                if ipaddress.ip_address(s) == ip:
+                if not typed_dns and ipaddress.ip_address(s) == ip:
                     return True
             except ValueError:
                 pass
             continue
         try:
             ipaddress.ip_address(s)
-            continue
+            if not typed_dns:
+                continue
         except ValueError:
             pass
         a, b = s.lower().rstrip("."), name.lower().rstrip(".")
@@ -536,7 +584,7 @@ def histogram(cases, obss):
     return h
 
 
-SANS = [["localhost"], ["other.example"], ["*.example.test"], ["127.0.0.1"], ["::1"], ["localhost", "127.0.0.1"]]
+SANS = [["localhost"], ["other.example"], ["*.example.test"], ["127.0.0.1"], ["::1"], ["localhost", "127.0.0.1"], ["dns:127.0.0.1"], ["dns:127.0.0.1", "other.example"]]
 HOSTS = ["localhost", "LOCALHOST", "localhost.", "127.0.0.1", "[::1]", "[::1%25lo]", "www.example.test", "a.b.example.test"]
 
 
@@ -584,6 +632,13 @@ def cases(rng, tier):
                 for cr in ("default", "REQUIRED", "OPTIONAL", "NONE"):
                     for ah in ("unset", "false"):
                         out.append(dict(base, cert_reqs=cr, assert_hostname=ah, fingerprint="unset", context=ctx, issuer=issuer, trust=trust, san=["localhost"]))
+    # a dNSName entry that spells the IP address asked for names nothing: every way of making urllib3 or the TLS library check the name
+    for backend in ("ssl", "pyopenssl"):
+        for cr in ("default", "OPTIONAL"):
+            for ah in ("unset", "127.0.0.1"):
+                for ctx in ("none", "nocheck"):
+                    for san in (["dns:127.0.0.1"], ["127.0.0.1"]):
+                        out.append(dict(base, host="127.0.0.1", backend=backend, cert_reqs=cr, assert_hostname=ah, fingerprint="unset", context=ctx, issuer="trusted", san=san))
     # the other backend and the tunnels, over the decisions that differ there
     for backend in ("ssl", "pyopenssl"):
         for route in ("direct", "http_tunnel", "https_tunnel"):
